@@ -935,14 +935,16 @@ def run_core(ctx, r):
     add_snap(ctx, mir, "core: Model/Compo vs Core", dict(case, observed_at="core"), core, [], nucs)
     cut = [a for a in assems if a.getSymmetryFactor() != 1.0]
     plain = [a for a in assems if a.getSymmetryFactor() == 1.0]
-    for a in (assems if ctx.thorough else cut + rng.sample(plain, 8)):
+    centre0 = [a for a in cut if a.getSymmetryFactor() == 3.0]
+    edges0 = [a for a in cut if a.getSymmetryFactor() == 2.0]
+    for a in (assems if ctx.thorough else centre0[:1] + edges0[:2] + rng.sample(plain, 3)):
         additivity(a, lambda k, c, o, e, a=a: ctx.fail(k, c, dict(case, assembly=a.name), observed=o, expected=e), nucs[:2])
         add_snap(ctx, mir, "core: Model/Compo vs Assembly", dict(case, assembly=a.name, sym=a.getSymmetryFactor()),
                  a, paths[id(a)], nucs)
         ctx.case(("ref-assembly", a.name), nontrivial=True)
     centre = [a for a in cut if a.getSymmetryFactor() == 3.0]
     edges = [a for a in cut if a.getSymmetryFactor() == 2.0]
-    for a in (cut + rng.sample(plain, 30) if ctx.thorough else centre[:1] + edges[:2] + rng.sample(plain, 2)):
+    for a in (cut + rng.sample(plain, 30) if ctx.thorough else centre[:1] + edges[:1] + rng.sample(plain, 1)):
         for b in a:
             fb = lambda k, c, o, e, b=b: ctx.fail(k, c, dict(case, block=b.name, sym=b.getSymmetryFactor()), observed=o, expected=e)  # noqa: E731
             bn = pick_nucs(rng, b, 3)
@@ -974,14 +976,23 @@ def run_core(ctx, r):
             add_selection(ctx, mir, "core: massSel vs Assembly.getMass(selection)", dict(case, assembly=a.name), a, paths[id(a)], spec)
             ctx.count("selection " + ("element/name" if isinstance(spec, str) else "list") + " @assembly")
     # core-level and cut-assembly-level edits, no resync (state carried on both sides)
-    targets = [core] + cut[:3] + [cut[0][1], cut[-1][1]]
-    for step in range(ctx.pick(3, 14)):
+    targets = [core, cut[0][1]] + cut[:3] + [cut[-1][1]]
+    quick = not ctx.thorough
+    for step in range(ctx.pick(2, 14)):
         obj = targets[step % len(targets)]
-        op, a = gen_edit(rng, obj, allow_absent=False)
-        if op in ("setnds",) and obj is core:
-            op, a = "scale", {"f": 1.25}
+        if quick and obj is core:
+            # quick tier: ONE core-level state change, chosen without scanning every nuclide of the core
+            n0 = nucs[0]
+            op, a = "setnd", {"n": n0, "v": float(core.getNumberDensity(n0)) * 1.25}
+            bef = {"nucs": nucs, "nd": {n: float(core.getNumberDensity(n)) for n in nucs},
+                   "mass": {n: float(core.getMass(n)) for n in nucs}, "rho": None, "mf": {}, "vol": float(core.getVolume()),
+                   "mtot": None}
+        else:
+            op, a = gen_edit(rng, obj, allow_absent=False)
+            if op in ("setnds",) and obj is core:
+                op, a = "scale", {"f": 1.25}
+            bef = before_state(obj)
         ecase = dict(case, object=str(getattr(obj, "name", "core")), level=level_of(obj), step=step, op=op, args=a)
-        bef = before_state(obj)
         combo_before = value_class(op, a, obj)
         res = apply_real(obj, op, a)
         ctx.count(f"edit {op} @{level_of(obj)}: {res}")
@@ -989,11 +1000,16 @@ def run_core(ctx, r):
         ef = lambda k, c, o, e, ecase=ecase: ctx.fail(k, c, ecase, observed=o, expected=e)  # noqa: E731
         edit_oracle(obj, op, a, res, bef, ef)
         mir.emit(model_line(mir, paths[id(obj)], op, a), expect_result(ctx, "core: edit accepted/refused", ecase, res))
-        add_snap(ctx, mir, f"core: Model/Compo vs Core after {op}", dict(ecase, observed_at="core"), core, [], nucs)
         if obj is not core:
             add_snap(ctx, mir, f"core: Model/Compo vs {level_of(obj)} after {op}", ecase, obj, paths[id(obj)], nucs)
-        whole_chain()
-        additivity(core, ef, nucs[:2])
+            par = obj.parent
+            if par is not None and id(par) in paths:
+                add_snap(ctx, mir, f"core: Model/Compo vs {level_of(par)} after {op}", ecase, par, paths[id(par)], nucs)
+        if obj is core or not quick:
+            # a new core-level state costs one core.density() (seconds): in quick only after the core-level edit
+            add_snap(ctx, mir, f"core: Model/Compo vs Core after {op}", dict(ecase, observed_at="core"), core, [], nucs)
+            whole_chain()
+            additivity(core, ef, nucs[:2])
     run_session(ctx, mir, "reference core")
 
 
@@ -1007,14 +1023,14 @@ def run_assemblies(ctx, r):
     centre = [a for a in assems if a.getSymmetryFactor() == 3.0]
     edge = [a for a in assems if a.getSymmetryFactor() == 2.0]
     plain = [a for a in assems if a.getSymmetryFactor() == 1.0]
-    chosen = centre[:1] + edge[:1] + rng.sample(plain, ctx.pick(2, 8))
+    chosen = centre[:1] + edge[:1] + rng.sample(plain, ctx.pick(1, 8))
     for a in chosen:
         mir = Mirror()
         paths = mir.load([a], extra_nucs=("PU239", "AM241", "HE4"))
         blocks = list(a)
         targets = [a] + blocks + [c for b in rng.sample(blocks, min(2, len(blocks))) for c in rng.sample(list(b), 2)]
         label = f"assembly sym={a.getSymmetryFactor():g}"
-        paths = edit_sequence(ctx, mir, [a], paths, targets, ctx.pick(14, 60), label)
+        paths = edit_sequence(ctx, mir, [a], paths, targets, ctx.pick(10, 60), label)
         element_level_edits(ctx, mir, paths, [a, blocks[1], list(blocks[1])[0]], label)
         run_session(ctx, mir, label)
 
@@ -1068,7 +1084,7 @@ STRUCT_MATS = ["HT9", "Zr", "Inconel600", "Inconel625", "InconelX750", "Hastello
 COOLANTS = ["Sodium", "Lead", "LeadBismuth", "Potassium"]
 
 
-def gen_block(rng, name, height):
+def gen_block(rng, name, height, force_gap=None):
     """a hex block from real shape classes: fuel circles, bond, clad, wire helix, duct hexagon, derived coolant, and
     optionally rectangles / triangles / holed shapes as extra structure."""
     from armi.reactor import blocks, components
@@ -1083,7 +1099,7 @@ def gen_block(rng, name, height):
     cool = rng.choice(COOLANTS)
     fuel = components.Circle("fuel", rng.choice(FUEL_MATS), 25.0, tf, od=common.dyadic(rng, 0.5, 0.75, 4), id=0.0, mult=mult)
     clad = components.Circle("clad", rng.choice(STRUCT_MATS), 25.0, ts, od=1.0, id=0.875, mult=mult)
-    if rng.random() < 0.5:
+    if (rng.random() < 0.5) if force_gap is None else force_gap:
         # a void gap of sizeable volume (no nuclides) between fuel and clad
         bond = components.Circle("gap", "Void", ts, ts, od="clad.id", id="fuel.od", mult="fuel.mult",
                                  components={"fuel": fuel, "clad": clad})
@@ -1129,7 +1145,7 @@ def gen_assembly(rng, idx, centre_grid):
     for j in range(nb):
         h = common.dyadic(rng, 10, 40, 1)
         if template is None or rng.random() < 0.5:
-            b = gen_block(rng, "gb%02d_%d" % (idx, j), h)
+            b = gen_block(rng, "gb%02d_%d" % (idx, j), h, force_gap=(idx % 2 == 0) if j == 0 else None)
             template = b
         else:
             b = copy.deepcopy(template)
@@ -1152,7 +1168,7 @@ def run_generated(ctx):
     from armi.reactor import grids
 
     rng = ctx.rng
-    n = ctx.pick(8, 80)
+    n = ctx.pick(5, 80)
     third = grids.HexGrid.fromPitch(16.0, numRings=3, symmetry="third periodic")
     made = 0
     for idx in range(n):
@@ -1196,8 +1212,8 @@ def run_generated(ctx):
                               paths[id(o)], spec)
                 ctx.count("selection " + ("element/name" if isinstance(spec, str) else "list") + " @" + level_of(o))
         targets = [a] + blocks + [c for b in blocks[:2] for c in rng.sample(list(b), 2)]
-        paths = edit_sequence(ctx, mir, [a], paths, targets, ctx.pick(12, 24), label)
-        if idx < ctx.pick(4, 40):
+        paths = edit_sequence(ctx, mir, [a], paths, targets, ctx.pick(8, 24), label)
+        if idx < ctx.pick(3, 40):
             paths = mir.load([a], extra_nucs=("PU239", "AM241", "HE4", "XE135", "SM149", "KR85", "NP237", "CM244"))
             new_nuclide_script(ctx, mir, paths, a, label)
         element_level_edits(ctx, mir, paths, [a, blocks[0], list(blocks[0])[0]], label)
@@ -1220,7 +1236,7 @@ def run_conversions(ctx):
     mir.emit("new")
     mir.emit(mir.phys_line())
     mir.phys_sent = len(mir.names)
-    for rep in range(ctx.pick(60, 600)):
+    for rep in range(ctx.pick(40, 600)):
         ns = rng.sample(pool, rng.randint(1, 6))
         nd = {n: rng.choice([common.dyadic(rng, 0, 1, 10) * 0.0625, 0.0, 1e-50, common.dyadic(rng, 0, 2, 6)]) for n in ns}
         case = {"stream": "densityTools", "nd": nd}
@@ -1388,7 +1404,7 @@ def run_query_order(ctx, r):
     cands = [a for a in core if any(isinstance(c, DerivedShape) for b in a for c in b)]
     fuels = [a for a in cands if a.hasFlags(Flags.FUEL)]
     pool = ([a for a in fuels if a.getSymmetryFactor() == 3.0][:1] + [a for a in fuels if a.getSymmetryFactor() == 1.0][:1]
-            + [a for a in cands if a.getSymmetryFactor() == 2.0][:1] + rng.sample(cands, ctx.pick(2, 10)))
+            + [a for a in cands if a.getSymmetryFactor() == 2.0][:1] + rng.sample(cands, ctx.pick(1, 10)))
     orders = ["area-block-first", "area-coolant-first", "volume-first", "clearcache-first", "massfirst"]
     edits = ["setTemperature", "setDimension"]
     mir = Mirror()
